@@ -15,7 +15,7 @@ CONSTANTS
   TreeIds = {3, 5}
   SparseIds = {1, 2, 3, 4, 5, 6}
   XP = "respect"
-  Strict = FALSE
+  Strict = "none"
   Emit = FALSE
 INVARIANTS Inv_C27
 VIEW View
